@@ -55,11 +55,16 @@ def boxes(v):
     s = SHIFT[v]
     return {"free": (np.array([-INF, -INF]), np.array([INF, INF])),
             "box": (np.array([-1.3 + s, -0.7 - s]), np.array([1.9 + s, 2.1 + 2 * s])),
-            "half": (np.array([-1.3 + s, -INF]), np.array([INF, 2.1 + 2 * s]))}
+            "half": (np.array([-1.3 + s, -INF]), np.array([INF, 2.1 + 2 * s])),
+            # a bound at exactly 0.0 (used with the two 'hair above the bound' starts)
+            "zero": (np.array([0.0, -0.7 - s]), np.array([INF, INF]))}
 
 
 STARTS = [np.array([0.7, 1.1]), np.array([-1.3, 0.4]), np.array([1.9, 2.1]),
-          np.array([0.1, -0.7]), np.array([-0.45, 0.3])]
+          np.array([0.1, -0.7]), np.array([-0.45, 0.3]),
+          # within 1e-17 / 1e-300 of a zero lower bound: the direction component towards
+          # the bound is minute but it is the one limiting the feasible step
+          np.array([1e-17, 0.4]), np.array([1e-300, 1.1])]
 TSTEPS = [0.01, 0.3, 1.0, 10.0]
 TOLS = [(1e-3, 0.9, 0.1), (1e-4, 0.1, 1e-5)]
 
@@ -71,8 +76,10 @@ def cases(tier, variants):
     for v in variants:
         for on in OBJ:
             for bn in ("free", "box", "half"):
-                for si in range(len(STARTS)):
+                for si in range(5):
                     yield dict(part="grid", var=v, obj=on, box=bn, start=si)
+            for si in (5, 6):
+                yield dict(part="grid", var=v, obj=on, box="zero", start=si)
         dmax = 3 if tier == "quick" else 4
         for bx in ("free", "wide", "tight"):
             for it in (0, 3):
@@ -184,7 +191,7 @@ def run(case):
     if part == "grid1":
         f, g = OBJ[case["obj"]]
         lb, ub = boxes(case["var"])[case["box"]]
-        x0 = np.clip(STARTS[case["start"]] + SHIFT[case["var"]], lb, ub)
+        x0 = np.clip(STARTS[case["start"]] + (SHIFT[case["var"]] if case["start"] < 5 else 0.0), lb, ub)
         g0 = g(x0)
         d = np.clip(x0 - TSTEPS[case["ts"]] * g0, lb, ub) - x0
         out, info = one_call(f, g, x0, d, lb, ub, case["it"], case["cap"], TOLS[case["tol"]])
@@ -194,7 +201,7 @@ def run(case):
     if part == "grid":
         f, g = OBJ[case["obj"]]
         lb, ub = boxes(case["var"])[case["box"]]
-        x0 = np.clip(STARTS[case["start"]] + SHIFT[case["var"]], lb, ub)
+        x0 = np.clip(STARTS[case["start"]] + (SHIFT[case["var"]] if case["start"] < 5 else 0.0), lb, ub)
         g0 = g(x0)
         for ts in range(len(TSTEPS)):
             d = np.clip(x0 - TSTEPS[ts] * g0, lb, ub) - x0
